@@ -105,7 +105,9 @@ def render_file(f, n):
 
 def write_stack(stack, d):
     for i, f in enumerate(stack):
-        Path(d, f"f{i}.toml").write_text(render_file(f, i))
+        # `@D@` in an extend_config value stands for the name of the directory the stack is written to
+        # (`../@D@/f1.toml` is another spelling of `f1.toml`)
+        Path(d, f"f{i}.toml").write_text(render_file(f, i).replace("@D@", Path(d).name))
     return Path(d, "f0.toml")
 
 
@@ -356,6 +358,10 @@ def section_entries(draw, tag, allow_disable_all=True):
     return draw(st.permutations(entries))
 
 
+# spellings of a path to a file in the same directory
+SPELLINGS = ["", "", "./", "../@D@/", "../@D@/./"]
+
+
 @st.composite
 def stacks(draw):
     n = draw(st.integers(1, 3))
@@ -371,7 +377,7 @@ def stacks(draw):
                 ovs.append(body)
             top.insert(draw(st.integers(0, len(top))), ["overrides", ovs])
         if i + 1 < n:
-            top.insert(draw(st.integers(0, len(top))), ["extend_config", f"f{i + 1}.toml"])
+            top.insert(draw(st.integers(0, len(top))), ["extend_config", draw(st.sampled_from(SPELLINGS)) + f"f{i + 1}.toml"])
         stack.append({"top": top})
     cmd_opts = draw(st.lists(st.sampled_from(ALL_OPTS), unique=True, max_size=3))
     cmdline = {o: draw(value_for(o, "cmd")) for o in cmd_opts}
@@ -461,6 +467,11 @@ def invalid_stacks(draw):
                "missing_file": "nonexistent.toml"}[kind]
         if kind == "mutual_include" and len(stack) == 1:
             kind = "self_include"
+        if kind != "missing_file" and draw(st.booleans()):
+            # a cycle in which every edge is spelt in non-resolved form
+            for g in stack[:-1]:
+                g["top"][:] = [[k, ("../@D@/" + v.split("/")[-1]) if k == "extend_config" else v] for k, v in g["top"]]
+            tgt = "../@D@/" + tgt
         last["top"].insert(draw(st.integers(0, len(last["top"]))), ["extend_config", tgt])
     return stack, cmdline, kind, loc
 
